@@ -87,6 +87,14 @@ type c19Job struct {
 	// Gedcom2 into a directory in which some pages cannot be created (the operating system refuses),
 	// then Gedcom again into a third directory; the two directories of Gedcom are returned as two runs.
 	DirHistory bool
+	// History: the document object is decoded once and published twice in this process:
+	//   "other-options"  first with other options (visibility, page groups) and Jobs2 jobs
+	//   "failed-first"   first with a writer that fails at the second file
+	//   "edit"           published, edited in place below an individual (History2 = which edit), published again
+	// Runs[0] = the second publish; Runs[1] = a publish of a freshly decoded copy of the current text.
+	History  string
+	History2 int
+	Jobs2    int
 }
 
 type c19File struct {
@@ -165,9 +173,14 @@ func c19PublishOnce(job *c19Job, src []byte, failAt int, failAll bool) (run c19R
 	if derr != nil {
 		return run, derr
 	}
+	return c19PublishDoc(job, doc, job.Opts, job.Jobs, failAt, failAll), nil
+}
+
+// c19PublishDoc publishes a decoded document into memory.
+func c19PublishDoc(job *c19Job, doc *gedcom.Document, o c19Opts, jobs, failAt int, failAll bool) (run c19Run) {
 	w := &c19MemWriter{failAt: failAt, failAll: failAll}
-	p := html.NewPublisher(doc, job.Opts.real())
-	perr := p.Publish(w, job.Jobs)
+	p := html.NewPublisher(doc, o.real())
+	perr := p.Publish(w, jobs)
 	if perr != nil {
 		run.Err = perr.Error()
 	}
@@ -188,7 +201,62 @@ func c19PublishOnce(job *c19Job, src []byte, failAt int, failAll bool) (run c19R
 			}
 		}
 	}
-	return run, nil
+	return run
+}
+
+// c19EditInPlace changes the document through the API at depth >= 2 below the document (children
+// and grandchildren of an individual); which = the edit.  Returns a description ("" = nothing to edit).
+func c19EditInPlace(doc *gedcom.Document, which int) string {
+	inds := doc.Individuals()
+	if len(inds) == 0 {
+		return ""
+	}
+	switch which % 5 {
+	case 0: // somebody dies: a child of an individual is added
+		for _, ind := range inds {
+			if ind.IsLiving() {
+				ind.AddNode(gedcom.NewNode(gedcom.TagDeath, "Y", ""))
+				return "AddNode(DEAT Y) on the first living individual"
+			}
+		}
+		inds[0].AddNode(gedcom.NewNode(gedcom.TagDeath, "Y", ""))
+		return "AddNode(DEAT Y) on the first individual"
+	case 1: // a place disappears: a grandchild of an individual is deleted
+		for _, ind := range inds {
+			for _, ev := range ind.Nodes() {
+				for _, k := range ev.Nodes() {
+					if _, ok := k.(*gedcom.PlaceNode); ok {
+						ev.DeleteNode(k)
+						return "DeleteNode(PLAC) below an event of an individual"
+					}
+				}
+			}
+		}
+		return ""
+	case 2: // a new place appears: a grandchild is added
+		for _, ind := range inds {
+			for _, ev := range ind.Nodes() {
+				if ev.Tag().Is(gedcom.TagBirth) || ev.Tag().Is(gedcom.TagDeath) {
+					ev.AddNode(gedcom.NewNode(gedcom.TagPlace, "Zedtown, Quuxland", ""))
+					return "AddNode(PLAC Zedtown, Quuxland) below an event of an individual"
+				}
+			}
+		}
+		return ""
+	case 3: // somebody is renamed: the NAME child is replaced
+		ind := inds[len(inds)/2]
+		for _, k := range ind.Nodes() {
+			if k.Tag().Is(gedcom.TagName) {
+				ind.DeleteNode(k)
+				break
+			}
+		}
+		ind.AddNode(gedcom.NewNode(gedcom.TagName, "Zed /Quux/", ""))
+		return "NAME of an individual replaced by Zed /Quux/ (DeleteNode + AddNode)"
+	default: // a field of the document: who is living
+		doc.MaxLivingAge = 5
+		return "Document.MaxLivingAge = 5"
+	}
 }
 
 // c19PublishDir publishes into dir with the real core.DirectoryFileWriter and reads the files back.
@@ -280,6 +348,40 @@ func init() {
 					return
 				}
 				res.Runs = []c19Run{before, after}
+				return
+			}
+			if job.History != "" {
+				doc, err := gedcom.NewDocumentFromString(string(job.Gedcom))
+				if err != nil {
+					res.Panic = "decode: " + err.Error()
+					return
+				}
+				jobs2 := job.Jobs2
+				if jobs2 < 1 {
+					jobs2 = 1
+				}
+				switch job.History {
+				case "other-options":
+					o := job.Opts
+					o.Living = map[string]string{"show": "hide", "hide": "placeholder", "placeholder": "show"}[o.Living]
+					o.Places, o.Surnames, o.Sources = !o.Places, !o.Surnames, !o.Sources
+					c19PublishDoc(&job, doc, o, jobs2, 0, false)
+				case "failed-first":
+					c19PublishDoc(&job, doc, job.Opts, jobs2, 2, true)
+				case "edit":
+					c19PublishDoc(&job, doc, job.Opts, jobs2, 0, false)
+					res.Stderr = c19EditInPlace(doc, job.History2)
+				}
+				second := c19PublishDoc(&job, doc, job.Opts, job.Jobs, 0, false)
+				fresh, err := gedcom.NewDocumentFromString(doc.String())
+				if err != nil {
+					res.Panic = "decode of the current text: " + err.Error()
+					return
+				}
+				fresh.MaxLivingAge = doc.MaxLivingAge
+				reference := c19PublishDoc(&job, fresh, job.Opts, 1, 0, false)
+				res.HistoryErr = res.Stderr
+				res.Runs = []c19Run{second, reference}
 				return
 			}
 			if len(job.Gedcom2) > 0 { // history: another document is published first
@@ -783,6 +885,184 @@ func c19GenerateDupPointers(r *Rand, nowYear int) *c19Doc {
 var c19UncreatableDoc = "0 HEAD\n0 @I1@ INDI\n1 NAME Zed /Quux/\n1 BIRT\n2 PLAC Nowhere\n2 SOUR @" + strings.Repeat("S", 300) + "@\n1 DEAT Y\n" +
 	"0 @" + strings.Repeat("S", 300) + "@ SOUR\n1 TITL Long one\n0 @" + strings.Repeat("T", 300) + "@ SOUR\n1 TITL Long two\n0 @" + strings.Repeat("U", 260) + "@ SOUR\n1 TITL Long three\n0 TRLR\n"
 
+// surnames of the size corpus: every ASCII letter in both cases, digits, symbols, non-ASCII first
+// letters, the Kelvin sign and dotted I (which lower-case onto ASCII), and no surname at all
+var c19BoundarySurnames = func() []string {
+	var out []string
+	for ch := 'a'; ch <= 'z'; ch++ {
+		out = append(out, string(ch)+"son", strings.ToUpper(string(ch))+"SON")
+	}
+	return append(out, "0zero", "9nine", "#hash", "&co", "'t Hooft", "-dash", "_under", "Éclair", "王", "Ж", "ß", "\u212aelvin", "İz", "", "z", "Z", "{brace", "`tick", "@")
+}()
+
+// c19GenerateSized builds a document with exactly nI individuals, nF families, nS sources and nP
+// distinct places; `namesakes` of the individuals are called "Same /Name/" (numbered keys up to
+// that number), the others get the boundary surnames in turn.
+func c19GenerateSized(nI, nF, nS, nP, namesakes, nowYear int) *c19Doc {
+	var sb strings.Builder
+	line := func(level int, rest string) { fmt.Fprintf(&sb, "%d %s\n", level, rest) }
+	line(0, "HEAD")
+	place := 0
+	nextPlace := func() string {
+		if nP == 0 {
+			return ""
+		}
+		place++
+		return fmt.Sprintf("Place %d, Shire %d", place%nP, (place%nP)%7)
+	}
+	for i := 0; i < nI; i++ {
+		line(0, fmt.Sprintf("@I%d@ INDI", i+1))
+		switch {
+		case i < namesakes:
+			line(1, "NAME Same /Name/")
+		default:
+			sn := c19BoundarySurnames[i%len(c19BoundarySurnames)]
+			if sn == "" {
+				line(1, fmt.Sprintf("NAME Given%d", i))
+			} else {
+				line(1, fmt.Sprintf("NAME Given%d /%s/", i, sn))
+			}
+		}
+		line(1, "BIRT")
+		if i%7 == 3 {
+			line(2, fmt.Sprintf("DATE 3 Mar %d", nowYear-25))
+		} else {
+			line(2, fmt.Sprintf("DATE 3 Mar %d", 1700+i%200))
+		}
+		if pl := nextPlace(); pl != "" {
+			line(2, "PLAC "+pl)
+		}
+		if nS > 0 {
+			line(2, fmt.Sprintf("SOUR @S%d@", 1+i%nS))
+		}
+		if i%7 != 3 {
+			line(1, "DEAT")
+			line(2, fmt.Sprintf("DATE 5 May %d", 1760+i%200))
+			if pl := nextPlace(); pl != "" && i%3 == 0 {
+				line(2, "PLAC "+pl)
+			}
+		}
+	}
+	for f := 0; f < nF && nI > 0; f++ {
+		line(0, fmt.Sprintf("@F%d@ FAM", f+1))
+		line(1, fmt.Sprintf("HUSB @I%d@", 1+(2*f)%nI))
+		line(1, fmt.Sprintf("WIFE @I%d@", 1+(2*f+1)%nI))
+		line(1, fmt.Sprintf("CHIL @I%d@", 1+(2*f+2)%nI))
+	}
+	for k := 0; k < nS; k++ {
+		line(0, fmt.Sprintf("@S%d@ SOUR", k+1))
+		line(1, fmt.Sprintf("TITL Register %d", k+1))
+	}
+	line(0, "TRLR")
+	return &c19Doc{Text: sb.String(), Mode: fmt.Sprintf("size:%d/%d/%d/%d", nI, nF, nS, nP)}
+}
+
+// the fixed page keys and their near misses: with and without the suffix, other case, one
+// character more or less, and endings a cut-set trim of ".html" would eat (h, t, m, l, .)
+var c19FixedNearMisses = func() []string {
+	stems := []string{"places", "sources", "statistics", "families", "surnames", "index", "individuals", "individuals-symbol", "individuals-", "individuals-aa", "individuals-1", "individuals-#"}
+	for ch := 'a'; ch <= 'z'; ch++ {
+		stems = append(stems, "individuals-"+string(ch))
+	}
+	var out []string
+	for i, st := range stems {
+		out = append(out, st)
+		switch i % 6 { // every variation over the list, a few per stem
+		case 0:
+			out = append(out, st+".html", strings.ToUpper(st), st+"h", st[:len(st)-1])
+		case 1:
+			out = append(out, strings.ToUpper(st[:1])+st[1:], st+".htm", st+"t", st+"-1")
+		case 2:
+			out = append(out, st+".", st+"m", st+".HTML", st+"s")
+		case 3:
+			out = append(out, st+"l", st+".html.html", st+"_", "."+st)
+		case 4:
+			out = append(out, st+"html", st+" html", st+"-", st+".h")
+		default:
+			out = append(out, st+".ht", st+"lmth", st+"..", st+"-0")
+		}
+	}
+	return out
+}()
+
+// c19GenerateNearMisses builds a document whose people, places and sources are called like the
+// k-th slice of the near-miss list.
+func c19GenerateNearMisses(k, per int) *c19Doc {
+	var sb strings.Builder
+	line := func(level int, rest string) { fmt.Fprintf(&sb, "%d %s\n", level, rest) }
+	line(0, "HEAD")
+	lo := (k * per) % len(c19FixedNearMisses)
+	used := map[string]bool{}
+	for j := 0; j < per; j++ {
+		w := c19FixedNearMisses[(lo+j)%len(c19FixedNearMisses)]
+		line(0, fmt.Sprintf("@I%d@ INDI", j+1))
+		if j%2 == 0 {
+			line(1, "NAME "+w)
+		} else {
+			line(1, "NAME "+strings.Replace(w, "-", " /", 1)+"/")
+		}
+		line(1, "BIRT")
+		line(2, "PLAC "+c19FixedNearMisses[(lo+j+1)%len(c19FixedNearMisses)])
+		line(1, "DEAT Y")
+		ptr := strings.NewReplacer("@", "", " ", "_").Replace(c19FixedNearMisses[(lo+j+2)%len(c19FixedNearMisses)])
+		if ptr != "" && !used[ptr] {
+			used[ptr] = true
+			line(2, "SOUR @"+ptr+"@")
+		}
+	}
+	var ptrs []string
+	for p := range used {
+		ptrs = append(ptrs, p)
+	}
+	sort.Strings(ptrs)
+	for _, p := range ptrs {
+		line(0, "@"+p+"@ SOUR")
+		line(1, "TITL "+p)
+	}
+	line(0, "TRLR")
+	return &c19Doc{Text: sb.String(), Mode: "near-miss"}
+}
+
+// c19GeneratePointerLengths: record pointers of 1, 64, 200 and 250 bytes (with ".html" the longest
+// source page name is exactly 255 bytes: the longest name a file system creates).
+func c19GeneratePointerLengths() *c19Doc {
+	var sb strings.Builder
+	line := func(level int, rest string) { fmt.Fprintf(&sb, "%d %s\n", level, rest) }
+	line(0, "HEAD")
+	for i, n := range []int{1, 64, 200, 250} {
+		ip := strings.Repeat(string(rune('a'+i)), n)
+		sp := strings.Repeat(string(rune('S'+i)), n)
+		line(0, "@"+ip+"@ INDI")
+		line(1, fmt.Sprintf("NAME Len%d /Ptr/", n))
+		line(1, "BIRT")
+		line(2, "PLAC Leeds")
+		line(2, "SOUR @"+sp+"@")
+		line(1, "DEAT Y")
+		line(0, "@"+sp+"@ SOUR")
+		line(1, fmt.Sprintf("TITL Source with a pointer of %d bytes", n))
+	}
+	line(0, "@"+strings.Repeat("F", 200)+"@ FAM")
+	line(1, "HUSB @a@")
+	line(1, "WIFE @"+strings.Repeat("b", 64)+"@")
+	line(0, "TRLR")
+	return &c19Doc{Text: sb.String(), Mode: "pointer-lengths"}
+}
+
+// c19GenerateSameLetter: m dead people with one surname letter; published with the individual pages
+// only this gives exactly m+1 files (page counts below, at and above the job counts).
+func c19GenerateSameLetter(m int) *c19Doc {
+	var sb strings.Builder
+	line := func(level int, rest string) { fmt.Fprintf(&sb, "%d %s\n", level, rest) }
+	line(0, "HEAD")
+	for i := 0; i < m; i++ {
+		line(0, fmt.Sprintf("@I%d@ INDI", i+1))
+		line(1, fmt.Sprintf("NAME P%d /Quill/", i))
+		line(1, "DEAT Y")
+	}
+	line(0, "TRLR")
+	return &c19Doc{Text: sb.String(), Mode: fmt.Sprintf("pages=%d", m+1)}
+}
+
 func c19RandOpts(r *Rand) c19Opts {
 	o := c19Opts{true, true, true, true, true, true, "show"}
 	if r.Chance(1, 3) { // a random subset of page groups
@@ -797,7 +1077,8 @@ func c19RandOpts(r *Rand) c19Opts {
 var c19NamePool = []string{"Old Town", "old town", "Old-Town", "OLD,TOWN", "Old  Town", "Oldtown", "Élan Vital", "王小明", "K elvin", "İz mir",
 	"O'Brien", "a/b", "../x", "places", "statistics", "individuals-a", "1st Earl", "#hash", "", "-", "--", "_", "a_b-c", "x\xffy", "\xe2\x84", "Ann Smith",
 	"ann-smith", "ann-smith-1", "Ann Smith-1", "ÀÉÎ", "ß", "ǅ", "ſ", "Å", "a.b", "a&b", "q", "Q", "..", "/", "//", "a\x00b", "S/../x",
-	" ,Paris,,,France, ", "a,,,,,b", ",,,,", ", ,", "\u00a0x\u00a0", "\u3000a\u2003", "\ta\v", "Leeds,", ",Leeds", "sources", "families", "surnames", "individuals-symbol", "individuals-z", "s1"}
+	" ,Paris,,,France, ", "a,,,,,b", ",,,,", ", ,", "\u00a0x\u00a0", "\u3000a\u2003", "\ta\v", "Leeds,", ",Leeds", "sources", "families", "surnames", "individuals-symbol", "individuals-z", "s1",
+	"\xc3/", "\xe2,", "\xf0 ", "\xc3<", "/", ",", "@", "@@", "ÉÈÊË", "王小明王", "ЖЖЖ", "0", "000", "index", "index.html", "places.html", "PLACES", "placesh", "places.", "statisticsm", "familiesl", "surnamest"}
 
 func c19Name(r *Rand) string {
 	switch r.Intn(8) {
@@ -1042,6 +1323,8 @@ type c19Site struct {
 	opts  c19Opts
 	facts *c19Facts
 	base  *c19Result
+	light bool // a big document: baseline, one rerun and one history only
+	jobs  bool // every job count 1,2,3,4,8,16,17 (and 0 as an observation), faults at the job count
 }
 
 func c19Plain(name string) bool {
@@ -1349,8 +1632,14 @@ func init() {
 		// ---- (T) sanitize on hostile strings: through GetIndividuals of a one-person document and
 		// through Publisher.Places() of a one-place document (the two call sites of the regexp)
 		nSan := c.N(3000, 150000)
-		for i := 0; i < nSan; i++ {
-			s := c19Name(c.R)
+		sanFixed := append(append([]string{}, c19FixedNearMisses...), c19BoundarySurnames...)
+		for i := 0; i < nSan+len(sanFixed); i++ {
+			s := ""
+			if i < len(sanFixed) {
+				s = sanFixed[i] // the fixed page keys, their near misses and the boundary surnames first
+			} else {
+				s = c19Name(c.R)
+			}
 			func() {
 				defer func() {
 					if r := recover(); r != nil {
@@ -1381,7 +1670,10 @@ func init() {
 		for ch := 33; ch < 127; ch++ {
 			c.Tie("c19pinds "+strconv.Itoa(ch), hexs(html.PageIndividuals(rune(ch))))
 		}
-		srcPtrs := append([]string{}, c19HostilePtr...)
+		srcPtrs := append(append([]string{}, c19HostilePtr...), c19FixedNearMisses...)
+		for _, n := range []int{1, 64, 200, 250, 255, 256} {
+			srcPtrs = append(srcPtrs, strings.Repeat("p", n))
+		}
 		for i := 0; i < c.N(300, 20000); i++ {
 			srcPtrs = append(srcPtrs, c19Name(c.R))
 		}
@@ -1468,10 +1760,42 @@ func init() {
 				}
 			}
 
+			if b0 == 0 {
+				// the boundary corpus runs first (notes/boundary-audit.md): record counts at and past
+				// 8/64/65/129/257 (1025 in the thorough tier), page counts around every job count,
+				// pointer lengths up to the longest creatable file name, every fixed page key and its
+				// near misses as person, place and source
+				var corpus []*c19Site
+				add := func(d *c19Doc, o c19Opts, light, jobs bool) {
+					st := &c19Site{doc: d, opts: o, light: light, jobs: jobs}
+					st.facts = c19NamingTies(c, d.Text, o)
+					c.Count("doc:" + strings.SplitN(d.Mode, ":", 2)[0])
+					c.Count("boundary:" + d.Mode)
+					corpus = append(corpus, st)
+				}
+				all := func(living string) c19Opts { return c19Opts{true, true, true, true, true, true, living} }
+				sizes := [][5]int{{0, 0, 0, 0, 0}, {1, 0, 1, 1, 0}, {8, 8, 8, 8, 3}, {64, 64, 64, 64, 64}, {65, 65, 65, 65, 65}, {129, 64, 129, 129, 66}, {257, 129, 257, 257, 9}}
+				if !c.Quick() {
+					sizes = append(sizes, [5]int{1025, 257, 1025, 1025, 9})
+				}
+				for k, z := range sizes {
+					add(c19GenerateSized(z[0], z[1], z[2], z[3], z[4], year), all([]string{"show", "hide", "placeholder"}[k%3]), z[0] >= 64, false)
+				}
+				const per = 12
+				for k := 0; k*per < len(c19FixedNearMisses); k++ {
+					add(c19GenerateNearMisses(k, per), all([]string{"show", "placeholder"}[k%2]), false, false)
+				}
+				add(c19GeneratePointerLengths(), all("show"), false, false)
+				for _, m := range []int{1, 2, 3, 7, 15, 16, 17} {
+					add(c19GenerateSameLetter(m), c19Opts{true, false, false, false, false, false, "show"}, false, true)
+				}
+				sites = append(corpus, sites...)
+			}
+
 			// ---- (S) baseline publish of every site: fresh process, one job
 			c19Parallel(len(sites), 12, func(i int) {
 				s := sites[i]
-				s.base = c19Child("", &c19Job{Gedcom: []byte(s.doc.Text), Opts: s.opts, Jobs: 1, Data: true, Names: true}, 90*time.Second)
+				s.base = c19Child("", &c19Job{Gedcom: []byte(s.doc.Text), Opts: s.opts, Jobs: 1, Data: true, Names: true}, 240*time.Second)
 			})
 			type variant struct {
 				site *c19Site
@@ -1492,6 +1816,46 @@ func init() {
 				for _, f := range base.Files {
 					expect[f.Name] = f.Sha
 				}
+				boundary := strings.HasPrefix(s.doc.Mode, "size:") || s.doc.Mode == "near-miss" || s.doc.Mode == "pointer-lengths" || s.jobs
+				if boundary || i%6 == 0 {
+					// one decoded document published twice in this process (package-level and
+					// per-document state: html.surnames, the children-by-tag cache, the document's
+					// and the individuals' caches), compared with a freshly decoded copy of the current text
+					hs := []string{"other-options", "failed-first", "edit"}
+					if s.light {
+						hs = hs[i%3 : i%3+1]
+					}
+					for hi, h := range hs {
+						variants = append(variants, &variant{site: s, what: "history " + h,
+							job: &c19Job{Gedcom: g, Opts: s.opts, Jobs: []int{1, 8, 3}[(i+hi)%3], Jobs2: []int{8, 1, 17}[(i+hi)%3], History: h, History2: i + hi, Expect: expect}})
+					}
+				}
+				if s.jobs {
+					for _, jobs := range []int{1, 2, 3, 4, 8, 16, 17} {
+						variants = append(variants, &variant{site: s, what: fmt.Sprintf("rerun jobs=%d", jobs),
+							job: &c19Job{Gedcom: g, Opts: s.opts, Jobs: jobs, Repeat: 1, Expect: expect}})
+						k := jobs
+						if k > nFiles {
+							k = nFiles
+						}
+						for _, all := range []bool{false, true} {
+							variants = append(variants, &variant{site: s, what: fmt.Sprintf("writer-fails k=%d all=%v jobs=%d files=%d", k, all, jobs, nFiles),
+								job: &c19Job{Gedcom: g, Opts: s.opts, Jobs: jobs, FailAt: k, FailAll: all, Expect: expect}})
+						}
+					}
+					variants = append(variants, &variant{site: s, what: "jobs-zero",
+						job: &c19Job{Gedcom: g, Opts: s.opts, Jobs: 0, Repeat: 1, Expect: expect}})
+					continue
+				}
+				if s.light {
+					variants = append(variants, &variant{site: s, what: "rerun jobs=17",
+						job: &c19Job{Gedcom: g, Opts: s.opts, Jobs: 17, Repeat: 1, Expect: expect}})
+					for n, k := range []int{1, nFiles} {
+						variants = append(variants, &variant{site: s, what: fmt.Sprintf("writer-fails k=%d all=%v jobs=%d files=%d", k, n == 1, []int{3, 17}[n], nFiles),
+							job: &c19Job{Gedcom: g, Opts: s.opts, Jobs: []int{3, 17}[n], FailAt: k, FailAll: n == 1, Expect: expect}})
+					}
+					continue
+				}
 				for ji, jobs := range allJobs {
 					if c.Quick() && ji != i%4 && ji != (i+2)%4 {
 						continue // quick tier: two of the four job counts per site, all four over any two sites in a row
@@ -1508,7 +1872,7 @@ func init() {
 							job: &c19Job{Gedcom: g, Opts: s.opts, Jobs: allJobs[k%4], Repeat: 5, Expect: expect}})
 					}
 				}
-				if i%8 == 1 || s.doc.Mode == "witness" {
+				if i%8 == 1 || s.doc.Mode == "witness" || s.doc.Mode == "near-miss" || s.doc.Mode == "pointer-lengths" {
 					// the real DirectoryFileWriter: publish, then a publish whose pages cannot all be
 					// created, then publish again — one process, one job, one P (a pooled or cached
 					// buffer dirtied by the failure would show in the second copy)
@@ -1537,7 +1901,11 @@ func init() {
 				}
 			}
 			c19Parallel(len(variants), 12, func(i int) {
-				variants[i].res = c19Child("", variants[i].job, 30*time.Second, variants[i].env...)
+				limit := 30 * time.Second
+				if variants[i].site.light {
+					limit = 240 * time.Second // hundreds of pages, up to three publishes in the child
+				}
+				variants[i].res = c19Child("", variants[i].job, limit, variants[i].env...)
 			})
 
 			// ---- judge
@@ -1592,6 +1960,41 @@ func init() {
 				c.Eval()
 				base := s.base.Runs[0]
 				switch {
+				case v.what == "jobs-zero":
+					// outside the quantifier (jobs >= 1): observed and tied to the model (jobs_zero_silent)
+					c.Count("jobs=0")
+					if v.res.TimedOut || v.res.Crashed || v.res.Panic != "" || len(v.res.Runs) == 0 {
+						c.Oracle("", "Publish with no worker crashes or hangs", in, fmt.Sprintf("timeout=%v %s%s", v.res.TimedOut, v.res.Panic, c19FirstLine(v.res.Stderr)), "returns")
+						continue
+					}
+					r := v.res.Runs[0]
+					c.Tie(fmt.Sprintf("c19proto 0 %d 0 0 1", len(base.Files)),
+						fmt.Sprintf("returned=1 err=%s failed>0=0 all-written=%s", bit(r.Err != ""), bit(len(r.Files) == len(base.Files))))
+				case strings.HasPrefix(v.what, "history "):
+					c.Count("determinism:" + v.what)
+					if v.res.TimedOut || v.res.Crashed || v.res.Panic != "" || len(v.res.Runs) != 2 {
+						c.Oracle("", "publishing one decoded document twice ("+v.what+") crashes or hangs", in,
+							fmt.Sprintf("timeout=%v %s%s", v.res.TimedOut, v.res.Panic, c19FirstLine(v.res.Stderr)), "the same files")
+						continue
+					}
+					second, reference := v.res.Runs[0], v.res.Runs[1]
+					if v.what == "history edit" {
+						if v.res.HistoryErr == "" {
+							c.Count("history:nothing-to-edit")
+						}
+						in["edit in place after the first publish"] = v.res.HistoryErr
+					}
+					if second.Err != "" {
+						c.Oracle("", "Publish reports an error although the writer never failed ("+v.what+")", in, second.Err, "nil")
+					}
+					if ok, diff := c19SameFiles(reference, second); !ok {
+						c.Oracle("", "the second publish of a document object differs from publishing a freshly decoded copy of its current text ("+v.what+")", in, diff, "identical names and bytes")
+					} else if v.what != "history edit" {
+						if ok, diff := c19SameFiles(base, second); !ok {
+							c.Oracle("", "the second publish of a document object differs from a fresh single-job run ("+v.what+")", in, diff, "identical names and bytes")
+						}
+					}
+					c.Nontrivial(v.what + "/" + s.opts.Living + "/" + strings.SplitN(s.doc.Mode, ":", 2)[0])
 				case strings.HasPrefix(v.what, "dir-history"):
 					c.Count("determinism:dir-history")
 					if v.res.TimedOut || v.res.Crashed || v.res.Panic != "" || len(v.res.Runs) != 2 {
